@@ -95,7 +95,7 @@ LATIN1_JIS = '°±§¶×÷¢£¥¨¬´'
 CP932_ONLY = '～－∥①②③㈱髙№℡'
 
 CLASSES = ['digits', 'alnum', 'ascii', 'latin1', 'kana', 'utf8', 'cyr', 'sjis_bytes', 'lead_trail',
-           'hanzi', 'bytes', 'int', 'empty', 'latin1_jis', 'cp932_only']
+           'hanzi', 'bytes', 'int', 'empty', 'latin1_jis', 'cp932_only', 'upper']
 
 
 def content_of(rng, cls, n=None):
@@ -111,6 +111,8 @@ def content_of(rng, cls, n=None):
         return latin1_text(rng, n)
     if cls == 'latin1_jis':
         return ''.join(rng.choice(LATIN1_JIS) if rng.random() < 0.3 else chr(rng.randint(0x20, 0x7e)) for _ in range(max(n, 1)))
+    if cls == 'upper':
+        return ''.join(rng.choice('ABCDEFGHIJKLMNOPQRSTUVWXYZ0123456789') for _ in range(max(n, 1)))
     if cls == 'cp932_only':
         return ''.join(rng.choice(CP932_ONLY) if rng.random() < 0.4 else rng.choice(KANA) for _ in range(max(n // 2, 1)))
     if cls == 'kana':
